@@ -234,7 +234,12 @@ def c08(req, obs):
                     # count the run of transmissions of this logical request so far
                     run = 1
                     k = j
-                    while k > 0 and reqs[k - 1]["path"] == e["path"] and reqs[k - 1].get("payload_b64") == e.get("payload_b64") and reqs[k - 1].get("answer", "ok").startswith("err:") and reqs[k - 1]["method"] == "POST":
+                    while k > 0:
+                        if reqs[k - 1]["kind"] == "newNonce":
+                            k -= 1  # a nonce fetched between two transmissions (the error answer carried none)
+                            continue
+                        if not (reqs[k - 1]["path"] == e["path"] and reqs[k - 1].get("payload_b64") == e.get("payload_b64") and reqs[k - 1].get("answer", "ok").startswith("err:") and reqs[k - 1]["method"] == "POST"):
+                            break
                         run += 1
                         k -= 1
                     if nxt is not None and nxt["kind"] == "newNonce":
